@@ -252,6 +252,11 @@ func (s *Sim) self() *G {
 	return g
 }
 
+// BudgetScale multiplies every simulation's step budget. The worker raises it
+// to re-run an evaluation whose budget ran out: a long evaluation completes
+// under the larger budget (not a violation), a livelock does not.
+var BudgetScale = 1
+
 // Probe counts a rare condition.
 func (s *Sim) Probe(name string) {
 	s.probMu.Lock()
@@ -530,8 +535,8 @@ func (s *Sim) Run() *Verdict {
 		}
 		s.record(g, len(ready))
 		s.Step++
-		if s.Step > s.MaxSteps {
-			v := &Verdict{Class: "budget", Detail: fmt.Sprintf("step budget %d exhausted; live: %s", s.MaxSteps, s.describeLive()), Step: s.Step}
+		if s.Step > s.MaxSteps*BudgetScale {
+			v := &Verdict{Class: "budget", Detail: fmt.Sprintf("step budget %d exhausted; live: %s", s.MaxSteps*BudgetScale, s.describeLive()), Step: s.Step}
 			s.fail(v)
 			return v
 		}
